@@ -186,7 +186,7 @@ pub fn main(types: Vec<TypeEntry>, shapes: Vec<&'static str>, table_src: &str) -
             st.class("programs:command");
         }
         if i < 3 {
-            st.sample(|| json!({"struct": e.name, "shape": shape, "table": crate::props::c12::table_text(&l)}));
+            st.sample(|| json!({"struct": e.name, "shape": shape, "table": crate::props::c12::table_text(&l), "source": program_for(&t, e.name, shape)["program_rs"]}));
         }
         let strat = strategy_for(&t, e.name, GenCfg { vec_max: 3, text_max: 40, blob_max: 40 });
         ctx.proptest(seed, per_struct, &strat, st, |v, st| {
@@ -195,6 +195,9 @@ pub fn main(types: Vec<TypeEntry>, shapes: Vec<&'static str>, table_src: &str) -
                 return Ok(());
             }
             st.case(nontrivial, fnv(&encode(&t, &l, v).unwrap()) ^ fnv_str(shape) ^ (i << 48));
+            if i == 3 && st.samples.len() < 2 {
+                st.sample(|| json!({"struct": e.name, "value": clip(&render(v), 300), "bytes": clip(&hex(&encode(&t, &l, v).unwrap()), 200)}));
+            }
             check_value(&t, e, i as usize, shape, v)
         });
     });
